@@ -123,6 +123,7 @@ class Ctx:
         self.nontrivial = False
         self.sig = None         # history signature (string) for distinct counting
         self.notes = {}
+        self.freshen = True     # see call()
         self.cleanups = []      # callables run after the scenario, whatever its outcome (e.g. StepGate.abandon)
         self.in_step = False    # True while the harness thread operates inside a parked timestep (simkit.stepgate)
 
@@ -153,8 +154,14 @@ class Ctx:
             self.fail(kind, detail() if callable(detail) else detail, finding)
 
     def call(self, fn, *a, **k):
-        """Apply one operation to the real code: ('ok', value) | ('exc', exception)."""
+        """Apply one operation to the real code: ('ok', value) | ('exc', exception).
+        Plain str / int arguments are handed over as equal but DISTINCT objects (fresh): ids, names, tags and numbers
+        that reach the package from a file, a computation or another process are never the object it stored earlier,
+        so nothing may hinge on `is` where equality is meant (CPython's small-int / literal sharing hides that)."""
         self.steps += 1
+        if self.freshen:
+            a = tuple(fresh(x) for x in a)
+            k = {n: fresh(x) for n, x in k.items()}
         try:
             return ("ok", fn(*a, **k))
         except (RunTimeout, Violation, HarnessError):
@@ -179,6 +186,19 @@ class Ctx:
 
     def digest(self):
         return self._h.hexdigest()[:16]
+
+
+def fresh(x):
+    """An equal object that is not the same object, where CPython allows one (exact str of length >= 2, exact int
+    outside the shared small-int range); tuples are rebuilt element-wise; everything else is passed as it is."""
+    t = type(x)
+    if t is str:
+        return "".join([x[:1], x[1:]]) if len(x) >= 2 else x
+    if t is int:
+        return int(str(x)) if not -5 <= x <= 256 else x
+    if t is tuple:
+        return tuple(fresh(e) for e in x)
+    return x
 
 
 def _safe(v):
